@@ -32,7 +32,7 @@ class ExprMixin(ExecBase):
             return self.refresh(self.cur_ghost()[name])
         if name in self.spec.ghosts:
             ty = self.spec.ghosts[name]
-            v = fresh(ty, 'ghost_' + name)
+            v = V(ty, z3.Const('G0.' + name, ty.sort()))   # deterministic: the same initial value wherever it is first met
             v.loc = ('ghost', name)
             self.assume_type(v)
             self.cur_ghost()[name] = v
